@@ -31,7 +31,9 @@ EXPLANATION = (
     'way); '
     'R-C05.6 also accepts the guard-clause spelling of __eq__ and a hash over tuple(self.x) for attributes compared through one normaliser on both sides.'
     ' '
-    'R-C05.8 precedence of the type-specific over the common attribute defaults in every reader that combines them.')
+    'R-C05.8 precedence of the type-specific over the common attribute defaults in every reader that combines them.'
+    ' '
+    'R-C05.9 the facets a diff() reports through one list are tested independently (no reporting site is excluded by the test that admits another).')
 NOT_DECIDED = (
     'Closure of diff -> hint -> simulate for all signature pairs (needs '
     'execution of the three functions on generated pairs).')
@@ -993,7 +995,65 @@ def r8_defaults_precedence(ctx, rule_id='R-C05.8'):
     ctx.floor('readers combining common and type-specific defaults', n, 1)
 
 
+def r9_difference_facets_independent(ctx):
+    """A diff() method reports each facet that differs (`X.append('<facet>')`
+    with a constant).  The facets are independent: two Meta properties can
+    change in one edit (index_together replaced by Meta.indexes).  No
+    reporting site may therefore be excluded by the test that admits another
+    one (an `elif`, or an early exit after the first hit) - the hinted
+    evolution would resolve only the first facet and a residual difference
+    remains."""
+    ctx.rule('R-C05.9')
+    p = ctx.program
+    n_sites = 0
+    for cname in ('ModelSignature', 'AppSignature', 'FieldSignature',
+                  'ProjectSignature'):
+        f = p.cls(SIG, cname).methods.get('diff')
+        if f is None:
+            continue
+        g = ctx.cfg(f)
+        sites = []
+        for node in g.nodes:
+            for c in node.calls():
+                if call_name(c) == 'append' and c.args and \
+                        const_str(c.args[0]) is not None and \
+                        isinstance(c.func, ast.Attribute) and \
+                        isinstance(c.func.value, ast.Name):
+                    sites.append((node, c.func.value.id,
+                                  const_str(c.args[0]), c))
+        by_list = {}
+        for s_ in sites:
+            by_list.setdefault(s_[1], []).append(s_)
+        for lst, ss in by_list.items():
+            if len(ss) < 2:
+                continue
+            n_sites += len(ss)
+            tests = [t for t in g.nodes if t.kind in ('test', 'operand')]
+            bad = None
+            for t in tests:
+                on_t = [s_ for s_ in ss if g.guarded_by(s_[0], t, 'T')]
+                on_f = [s_ for s_ in ss if g.guarded_by(s_[0], t, 'F')]
+                if on_t and on_f:
+                    bad = (t, on_t[0], on_f[0])
+                    break
+            if bad:
+                t, a, b = bad
+                ctx.finding(f, b[3], '%s.diff reports %r only when the test '
+                            'that admits %r (%s) is false: when both differ '
+                            'only the first is reported, the hinted '
+                            'evolution resolves only that one and a residual '
+                            'difference remains' % (
+                                cname, b[2], a[2],
+                                ' '.join(unparse(t.ast).split())[:70]),
+                            key='facets-exclusive:%s:%s' % (a[2], b[2]))
+            else:
+                ctx.ok(f, '%s.diff: the %d facets reported through %s are '
+                       'tested independently' % (cname, len(ss), lst))
+    ctx.floor('facet reporting sites in the diff methods', n_sites, 5)
+
+
 def run(ctx):
+    r9_difference_facets_independent(ctx)
     r8_defaults_precedence(ctx)
     r7_order_preserving_rewrites(ctx)
     r6_hash_agrees_with_eq(ctx)
